@@ -1,0 +1,57 @@
+//go:build verif
+
+package pppoe
+
+// Hooks for the /verif check of property C11 (PPP control-protocol automata).
+// Add-only, compiled only with -tags verif, no behaviour change.
+//
+// VerifC11TakeRestartTimer + VerifC11Timeout together reproduce, without a
+// scheduler race, the schedule "the restart timer expired, but its callback
+// (which must take the automaton's mutex) runs only after an event that was
+// already being handled": TakeRestartTimer removes the pending timer exactly as
+// its expiry would (the *time.Timer stays in the struct, like a fired timer, so
+// a later Stop() has no effect), the harness then delivers the event, and
+// finally calls Timeout(), which is what the timer's goroutine would have done.
+// VerifC11RestartCount is a read-only view used for state fingerprints.
+
+func (lcp *LCPStateMachine) VerifC11TakeRestartTimer() bool {
+	lcp.timerMu.Lock()
+	defer lcp.timerMu.Unlock()
+	return lcp.restartTimer != nil && lcp.restartTimer.Stop()
+}
+
+func (lcp *LCPStateMachine) VerifC11Timeout() { lcp.timeout() }
+
+func (lcp *LCPStateMachine) VerifC11RestartCount() int {
+	lcp.mu.RLock()
+	defer lcp.mu.RUnlock()
+	return lcp.restartCount
+}
+
+func (ipcp *IPCPStateMachine) VerifC11TakeRestartTimer() bool {
+	ipcp.timerMu.Lock()
+	defer ipcp.timerMu.Unlock()
+	return ipcp.restartTimer != nil && ipcp.restartTimer.Stop()
+}
+
+func (ipcp *IPCPStateMachine) VerifC11Timeout() { ipcp.timeout() }
+
+func (ipcp *IPCPStateMachine) VerifC11RestartCount() int {
+	ipcp.mu.RLock()
+	defer ipcp.mu.RUnlock()
+	return ipcp.restartCount
+}
+
+func (ipv6cp *IPV6CPStateMachine) VerifC11TakeRestartTimer() bool {
+	ipv6cp.timerMu.Lock()
+	defer ipv6cp.timerMu.Unlock()
+	return ipv6cp.restartTimer != nil && ipv6cp.restartTimer.Stop()
+}
+
+func (ipv6cp *IPV6CPStateMachine) VerifC11Timeout() { ipv6cp.timeout() }
+
+func (ipv6cp *IPV6CPStateMachine) VerifC11RestartCount() int {
+	ipv6cp.mu.RLock()
+	defer ipv6cp.mu.RUnlock()
+	return ipv6cp.restartCount
+}
